@@ -1,5 +1,7 @@
 #include "tldevel.h"
 
+#include <math.h>
+
 #include "kalign/kalign.h"
 #include "msa_struct.h"
 
@@ -78,6 +80,9 @@ int aln_param_init(struct aln_param **aln_param,int biotype , int n_threads, int
                 ERROR_MSG("Unable to determine what alphabet to use.");
         }
 
+        if(isinf(gpo) || isinf(gpe) || isinf(tgpe)){
+                ERROR_MSG("Gap penalties have to be finite numbers.");
+        }
         if(gpo >= 0.0){
                 ap->gpo = gpo;
         }
